@@ -305,3 +305,129 @@ Proof.
     { cbn [upd_task with_tasks c_queues with_inst with_state t_rq]. rewrite Q1. exact (qv_rq _ _ _ _ _ _ V _ _ Ht). }
     rewrite Ha. reflexivity.
 Qed.
+
+(** * What holds after the release *)
+From HQ Require Import Cluster.InvWX1 Cluster.InvWX2 Cluster.InvWX3 Cluster.NoPanicL0.
+
+Record RelPost (c : core) (w : wid) (c2 : core) (running retracted : list tid) : Prop := mkRelPost {
+  rp_wi : WI c2;
+  rp_qi : QI (exL Ready retracted none) [] c2;
+  rp_keys : keys c2 = keys c;
+  rp_nd : NoDup retracted;
+  rp_pf : all_prefilled c2 retracted;
+  rp_run : forall x, In x running -> W0 c2 x;
+  rp_scr : scr c c2;
+  rp_jx : Jx w c2;
+  rp_wk : wids c2 = wids (with_workers c (del_worker (c_workers c) w))
+}.
+
+Theorem release_post c w wk a_order p_order c2 running retracted :
+  WI c -> QI none [] c -> CS c -> InvWX1.J c -> find_worker (c_workers c) w = Some wk ->
+  release (with_workers c (del_worker (c_workers c) w)) w wk a_order p_order = Ok (c2, running, retracted) ->
+  RelPost c w c2 running retracted.
+Proof.
+  intros HW V Hs HJ Hw Hr. unfold release in Hr.
+  set (c0 := with_workers c (del_worker (c_workers c) w)) in *.
+  pose proof (WIX_sw _ _ HW) as Sw. destruct (find_worker_some _ _ _ Hw) as [Hwin Hwi].
+  assert (Sw0 : wsorted (c_workers c0)) by (apply del_worker_sorted; exact Sw).
+  assert (V0 : QI none [] c0) by exact V.
+  assert (Hs0 : CS c0) by exact Hs.
+  assert (Hws0 : WS c0) by exact Sw0.
+  assert (HQ : QSTMT c) by (destruct (QInv_statement c V) as (_ & Q1 & Q2 & _); split; assumption).
+  assert (HWS : WSTMT c) by (apply WI_worker_sets_ok; exact HW).
+  assert (Q0 : QA c0) by (eapply QA_tasks_queues; [| |apply QSTMT_QA; exact HQ]; reflexivity).
+  assert (Jx0 : Jx w c0) by (apply Jx_del; exact HJ).
+  destruct (w_assign wk) as [a p f|mt root] eqn:Ea.
+  - destruct (perm_of_set a_order a && perm_of_set p_order p) eqn:Ep; [|discriminate]. cbn [negb] in Hr.
+    apply andb_true_iff in Ep. destruct Ep as [Hpa Hpp].
+    destruct (wi_sets _ _ _ (proj1 (proj2 (proj2 HW))) w wk a p f Hw Ea) as [Sa Sp].
+    destruct (perm_of_set_spec _ _ Hpa Sa) as [Nda Ma]. destruct (perm_of_set_spec _ _ Hpp Sp) as [Ndp Mp].
+    pose proof Hr as Hr0. apply bind_ok in Hr. destruct Hr as (c1 & H1 & H2).
+    destruct (lost_prefilled_QI _ _ _ V0 H1) as [V1 P1].
+    assert (Hnp : NP a_order (c_tasks c1)).
+    { intros id tk Hin Hf wp Hst. destruct (P1 _ _ _ Hf Hst) as (tk0 & Hf0 & Hst0).
+      exact (WI_asg_ok c HW wk a p f id tk0 Hwin Ea (proj1 (Ma id) Hin) Hf0 wp Hst0). }
+    pose proof (lost_prefilled_frame _ _ _ Hs0 H1) as E1.
+    destruct (lost_prefilled_QA _ _ _ Q0 H1) as [S1 _].
+    assert (S01 : scr c c1) by (eapply scr_trans; [apply (scr_tasks _ c0); reflexivity | exact S1]).
+    pose proof (lost_prefilled_wids _ _ _ Hws0 H1) as Wd1.
+    destruct (lost_assigned_ret a_order c1 [] [] c2 running retracted V1 Hnp Nda (NoDup_nil _)) as [Ndr Hpf]; [intros x [] | exact H2 |].
+    constructor.
+    + eapply (lost_release_sn c w wk); eassumption.
+    + eapply (lost_assigned_QI a_order c1 [] []); [exact V1 | exact Hnp | exact H2].
+    + rewrite (lost_assigned_frame _ _ _ _ _ _ _ (CS_keys _ _ E1 Hs0) H2). exact E1.
+    + exact Ndr.
+    + exact Hpf.
+    + eapply (lost_assigned_running a_order c1 [] []); [exact Nda | intros x [] | exact H2].
+    + eapply scr_trans; [exact S01|]. eapply lost_assigned_scr; [|exact H2].
+      eapply zlist_scr; [exact S01|]. intros id tk Hin Ef. eapply (WSTMT_assigned _ _ _ _ _ _ HWS Hw Ea); [|exact Ef].
+      eapply perm_of_set_sub; eassumption.
+    + eapply Jx_R; [exact Jx0|]. eapply InvWX1.R_trans; [eapply lost_prefilled_R; exact H1 | eapply lost_assigned_R; exact H2].
+    + rewrite (lost_assigned_wids _ _ _ _ _ _ _ (WS_eq _ _ Wd1 Hws0) H2). exact Wd1.
+  - apply bind_ok in Hr. destruct Hr as (tk & Ht & Hr). apply get_task_find in Ht. cbn [c0 c_tasks with_workers] in Ht.
+    destruct (find_task_some _ _ _ Ht) as [Htin Hid].
+    destruct (t_state tk) as [n|w1 rv1|w1|w1|w1 rv1|ws|] eqn:Est; try discriminate. destruct ws as [|w0 rest] eqn:Ews; [discriminate|].
+    assert (Hpm : pl (t_state tk) = PM (w0 :: rest)) by (rewrite Est; reflexivity).
+    destruct (N.eqb w w0) eqn:Ew0.
+    + apply N.eqb_eq in Ew0. subst w0.
+      apply bind_ok in Hr. destruct Hr as (c1 & Hc1 & Hr). apply bind_ok in Hr. destruct Hr as ([qs ret] & Ha & Hr).
+      inversion Hr; subst c2 running retracted. clear Hr.
+      pose proof (reset_mn_all_qsame _ _ _ Hc1) as Hqs. pose proof (QI_same _ _ _ _ Hqs V0) as V1. destruct Hqs as (T1 & Q1 & R1 & _).
+      assert (T1' : c_tasks c1 = c_tasks c) by exact T1.
+      pose proof (reset_mn_all_frame _ _ _ Hc1) as E1.
+      set (t2 := with_inst (with_state tk (Waiting 0)) (t_inst tk + 1)) in *.
+      assert (Ek : keys (upd_task c1 t2) = keys c).
+      { transitivity (keys c1); [|exact E1]. apply (upd_task_frame c1 mt tk); [eapply CS_keys; [exact E1 | exact Hs0] | rewrite T1'; exact Ht | reflexivity | reflexivity]. }
+      destruct (add_ready_task_dispose _ _ _ _ Ha) as (qs1 & Hd).
+      assert (V1e : QI (exL Ready [] none) [] c1) by exact V1.
+      cbn [upd_task with_tasks c_queues] in Hd.
+      destruct (dispose_ret_prefilled [] c1 _ qs1 ret V1e Hd) as [Ndrt Hrt].
+      constructor.
+      * assert (W1 : WIX (xadd x0 mt) c1).
+        { eapply (C_relM_reset x0 c mt tk (w :: rest) c0 rest c1); [exact HW | reflexivity | exact Ht | exact Hpm | reflexivity | reflexivity | reflexivity
+            | apply del_worker_sorted; exact Sw | | | | | exact Hc1].
+          - intros x Hx. cbn [n_mem] in Hx. apply orb_false_iff in Hx. destruct Hx as [E1' _].
+            cbn [c0 c_workers with_workers]. rewrite find_del_worker by exact Sw. rewrite E1'. reflexivity.
+          - intros x _. cbn [c0 c_workers with_workers]. rewrite find_del_worker by exact Sw. destruct (N.eqb x w); auto.
+          - intros x Hx. cbn [n_mem] in Hx. cbn [c0 c_workers with_workers]. rewrite find_del_worker by exact Sw.
+            destruct (N.eqb x w); [right; reflexivity | left; exact Hx].
+          - intros x Hx. cbn [n_mem]. rewrite Hx. apply orb_true_r. }
+        refine (WIX_frame _ (upd_task c1 t2) _ eq_refl eq_refl eq_refl eq_refl _).
+        exact (C_show _ _ W1 x0 mt t2 ltac:(xs) ltac:(xs) Hid (or_introl eq_refl)).
+      * rewrite <- T1' in Ht. qi_simpl.
+        eapply QV_ext.
+        -- eapply QV_requeue; [exact V1 | exact Ht | exact (find_task_id _ _ _ Ht) | reflexivity | reflexivity | | | reflexivity | cbn; discriminate | exact Ha].
+           ++ unfold exp_place, none. rewrite Est. discriminate.
+           ++ eapply QV_no_redirect; [exact V1 | exact Ht | intros w1; congruence].
+        -- intros x tx _. unfold exL, exR, none. destruct (tid_mem x ret); [reflexivity|]. destruct (tid_eqb x mt); reflexivity.
+      * exact Ek.
+      * exact Ndrt.
+      * intros x Hx. destruct (Hrt x Hx) as (_ & tx & wx & Hfx & Hsx). exists tx, wx. split; [|exact Hsx].
+        cbn [c_tasks with_queues upd_task with_tasks]. rewrite find_set_task. cbn [t2 t_id with_inst with_state]. rewrite Hid.
+        destruct (tid_eqb x mt) eqn:E; [|exact Hfx]. apply tid_eqb_eq in E. subst x. rewrite T1', Ht in Hfx. inversion Hfx; subst tx. congruence.
+      * intros x [<-|[]]. exists t2. split; [|reflexivity].
+        cbn [c_tasks with_queues upd_task with_tasks]. rewrite find_set_task. cbn [t2 t_id with_inst with_state]. rewrite Hid, tid_eqb_refl'. reflexivity.
+      * eapply (scr_upd _ c1 _ mt tk); [exact T1' | exact Ht | reflexivity | edges | cbn; ststep].
+      * eapply Jx_R; [exact Jx0|]. eapply InvWX1.R_trans; [eapply reset_mn_all_R; exact Hc1|].
+        eapply (R_set_ok _ _ t2); [reflexivity | apply Dm_eq; reflexivity | exact I].
+      * exact (reset_mn_all_wids _ _ _ Hws0 Hc1).
+    + inversion Hr; subst c2 running retracted. clear Hr. constructor.
+      * eapply (C_shrinkM x0 c HW mt tk (w0 :: rest) w); [reflexivity | exact Ht | exact Hpm | | exact Hid | reflexivity].
+        unfold inM. rewrite Hw, Ea, tid_eqb_refl'. reflexivity.
+      * qi_simpl.
+        eapply QV_task0; [exact V0 | exact Ht | exact (find_task_id _ _ _ Ht) | reflexivity | reflexivity | reflexivity | | |].
+        -- unfold exp_place, none. rewrite Est. reflexivity.
+        -- intros v Hv. exfalso. rewrite (QV_no_redirect _ _ _ _ _ _ _ _ V0 Ht) in Hv; [discriminate | intros w1; congruence].
+        -- cbn. discriminate.
+      * apply (upd_task_frame c0 mt tk); [exact Hs0 | exact Ht | reflexivity | reflexivity].
+      * constructor.
+      * intros x [].
+      * intros x [].
+      * eapply (scr_upd _ c0 _ mt tk); [reflexivity | exact Ht | reflexivity | edges | ststep].
+      * eapply Jx_R; [exact Jx0|].
+        pose proof (HJ tk Htin) as Hok. rewrite Est in Hok. cbn in Hok. destruct Hok as [_ Hnd].
+        eapply (R_set_ok _ _ (with_state tk (RunningMN (filter (fun x => negb (N.eqb x w)) (w0 :: rest))))); [reflexivity | apply Dm_eq; reflexivity |].
+        cbn [okst t_state with_state]. split; [|apply NoDup_filter; exact Hnd].
+        cbn [filter]. rewrite N.eqb_sym, Ew0. cbn [negb]. discriminate.
+      * reflexivity.
+Qed.
